@@ -259,6 +259,8 @@ def count_faults(acc, spec, out):
                 bump("options_changed_on_live_stream")
             elif k == "setmode":
                 bump("stream_parser_set_to_stop_at_first_error")
+            elif k == "compile" and op.get("attach") == "json":
+                bump("document_compiled_after_json_round_trip")
             elif k == "tokcli":
                 bump("token_listing_script")
             elif k == "stream":
